@@ -3,11 +3,37 @@
   `{"suite": s, "id": n, …}` ↦ `{"id": n, "out": …}` or `{"id": n, "fail": msg}`.
 -/
 import TypedpyModel.Drive.Construct
+import TypedpyModel.Drive.Mutate
+import TypedpyModel.Drive.Serde
+import TypedpyModel.Drive.Mapper
+import TypedpyModel.Drive.Schema
+import TypedpyModel.Drive.SchemaCode
+import TypedpyModel.Drive.Derive
+import TypedpyModel.Drive.Elab
+import TypedpyModel.Drive.Define
+import TypedpyModel.Drive.World
+import TypedpyModel.Drive.Stub
+import TypedpyModel.Drive.Convert
+import TypedpyModel.Drive.Errors
+import TypedpyModel.Drive.Sched
 open Lean (Json)
 
 def dispatch (suite : String) (j : Json) : Except String Json :=
   match suite with
   | "construct" => Typedpy.Drive.Construct.run j
+  | "mutate" => Typedpy.Drive.Mutate.run j
+  | "serde" => Typedpy.Drive.Serde.run j
+  | "mapper" => Typedpy.Drive.Mapper.run j
+  | "schema" => Typedpy.Drive.Schema.run j
+  | "schemacode" => Typedpy.Drive.SchemaCode.run j
+  | "derive" => Typedpy.Drive.Derive.run j
+  | "elab" => Typedpy.Drive.Elab.run j
+  | "define" => Typedpy.Drive.Define.run j
+  | "world" => Typedpy.Drive.World.run j
+  | "stub" => Typedpy.Drive.Stub.run j
+  | "convert" => Typedpy.Drive.Convert.run j
+  | "errors" => Typedpy.Drive.Errors.run j
+  | "sched" => Typedpy.Drive.Sched.run j
   | s => .error s!"unknown suite {s}"
 
 def handle (line : String) : String :=
